@@ -1,6 +1,8 @@
 (* C18 — eth_getLogs returns exactly the matching logs, in chain order.  Statements only. *)
 From Brc.Model Require Import Base Logs.
 From Brc.Proofs Require Import LogsP.
+From Brc.Model Require Tie18.
+From Brc.Proofs Require Tie18P.
 
 (* For every range it serves, the answer is the list of the logs of the blocks from..to in
    chain order (block, transaction index, log index), filtered by the address / topic filter:
@@ -63,3 +65,29 @@ Print Assumptions C18_too_wide_refused.
 Print Assumptions C18_never_panics.
 Print Assumptions C18_reversed_range_empty.
 Print Assumptions C18_topics_positional.
+
+(* ---------------------------------------------------------------------------------------
+   The tie, as a theorem.  [Tie18.check18] is the executable checker the correspondence run
+   evaluates on every recorded eth_getLogs request against a real chain.  If it accepts a case
+   in which the implementation answered, the tags of the logs the IMPLEMENTATION returned are
+   exactly the tags of the matching logs of the recorded rows, in chain order; if the
+   implementation refused, so does the model. *)
+Theorem C18_accepted_case_answer_is_the_matching_logs :
+  forall (c : Tie18.case18) (tags : list N),
+    Forall (fun e => e_idx e < 2 ^ 64) (Tie18.c18_rows c) ->
+    Tie18.check18 c = true -> Tie18.c18_got c = Some tags ->
+    let f := match Tie18.c18_from c with Some x => x | None => Tie18.c18_latest c end in
+    let t := match Tie18.c18_to c with Some x => x | None => f end in
+    tags = map l_tag (filter (log_matches (Tie18.c18_addr c) (Tie18.c18_topics c))
+                             (chain_logs f t (Tie18.c18_rows c)))
+    /\ t - f <= 5.
+Proof. exact Tie18P.check18_accepts. Qed.
+Print Assumptions C18_accepted_case_answer_is_the_matching_logs.
+
+Theorem C18_accepted_case_refusal_is_the_models :
+  forall (c : Tie18.case18),
+    Tie18.check18 c = true -> Tie18.c18_got c = None ->
+    get_logs (Tie18.c18_latest c) (Tie18.c18_from c) (Tie18.c18_to c) (Tie18.c18_addr c)
+             (Tie18.c18_topics c) (Tie18.c18_rows c) = Err.
+Proof. exact Tie18P.check18_refusal. Qed.
+Print Assumptions C18_accepted_case_refusal_is_the_models.
